@@ -11,18 +11,34 @@ show which branches the generated histories visit).
 -/
 namespace AndaVerif.Collection
 
-/-- a `RangeQuery` over integer keys as a predicate on the model's keys (a tuple key belongs to a
-multi-field index, whose byte key no integer query matches) -/
+mutual
+/-- the query carries at least one key value (which the index has to convert to its own key type) -/
+def hasValue : RQ Int → Bool
+  | .incl ks => !ks.isEmpty
+  | .or qs => hasValueList qs
+  | .and qs => hasValueList qs
+  | .not q => hasValue q
+  | _ => true
+def hasValueList : List (RQ Int) → Bool
+  | [] => false
+  | q :: qs => hasValue q || hasValueList qs
+end
+
+/-- a `RangeQuery` over integer keys as a predicate on the model's keys. A tuple key belongs to a
+multi-field index (byte keys): an integer value does not convert to its key type (the filter is
+refused, see `fieldFilter`); a query without any value (`Include([])`, `Not(Include([]))`, …) is
+decided by its structure alone -/
 def liftQ (q : RQ Int) : Key → Bool
   | .s k => q.matches k
-  | .t _ => false
+  | .t _ => !hasValue q && q.matches 0
 
-/-- `filter_by_field_with`, `Field` arm: an unknown index name is `DBError::Index`; the ids of all
-matching keys, de-duplicated (`UniqueVec`) -/
+/-- `filter_by_field_with`, `Field` arm: an unknown index name is `DBError::Index`, and so is a value
+that does not convert to the index's key type (an integer against the byte keys of a multi-field
+index); otherwise the ids of all matching keys, de-duplicated (`UniqueVec`) -/
 def fieldFilter (s : State) (name : Nat) (q : RQ Int) : Option (List Nat) :=
   match s.ix.bt.find? (fun x => x.1.name == name) with
   | none => none
-  | some x => some (btQuery x.2 (liftQ q)).eraseDups
+  | some x => if x.1.fields.length ≥ 2 && hasValue q then none else some (btQuery x.2 (liftQ q)).eraseDups
 
 -- ------------------------------------------------------------------------------------------------
 -- branch tags
